@@ -27,7 +27,15 @@ TRIPLES = [
     ["name === 'ABC'", "name = 'ABC'", "name === 'abc'"],
     ["name like 'A%'", "name =~ 'A%'", "name = 'a%'"],
     ["ext = 'TXT'", "name = 'TXT'", "ext === 'txt'"],
+    # date atoms: a literal denotes a period, and `not x > D` must be the exact complement of `x > D` for entries inside it
+    ["modified > '2024-05-01'", "modified <= '2024-05-01 10'", "modified between '2024-04-30' and '2024-05-01 10:30'"],
+    ["modified = '2024-05-01'", "modified != '2024-05-01 10:30'", "modified >= '2024-05-01 10:30:30'"],
+    ["modified < '2024-05-01 10:30'", "modified not between '2024-05-01' and '2024-05-01 10'", "size > 100"],
 ]
+
+
+# 2024-04-30 23:59:59, 2024-05-01 00:00:00, 10:00:00, 10:29:59, 10:30:00, 10:30:30, 10:59:59, 23:59:59, 2024-05-02 00:00:00 (UTC)
+MTIMES = [1714521599, 1714521600, 1714557600, 1714559399, 1714559400, 1714559430, 1714561199, 1714607999, 1714608000]
 
 
 def fixed_tree(root):
@@ -43,7 +51,7 @@ def fixed_tree(root):
                 d = "d%d" % (i % 3)
                 nodes.append({"path": "%s/%s%s" % (d, nm.split(".")[0] + str(i) if nm not in ("abc", "a") else nm + ("" if i < 3 else str(i)),
                                                    "." + nm.split(".")[1] if "." in nm else ""),
-                              "kind": "file", "size": size, "owner": (uid, uid * 3),
+                              "kind": "file", "size": size, "owner": (uid, uid * 3), "mtime": MTIMES[i % len(MTIMES)],
                               "mode": [0o644, 0o755, 0o600, 0o640][i % 4]})
     nodes = [{"path": "d0", "kind": "dir"}, {"path": "d1", "kind": "dir"}, {"path": "d2", "kind": "dir"}] + nodes
     for lit in ("a*", "?yz", "a*c", "t?t.t?t", "a.c", "a_c", "A*"):
